@@ -209,6 +209,70 @@ def check_marinate(mods, ref, ctx):
     return obl
 
 
+NONFINITE = [float('nan'), float('inf'), float('-inf'), -2.5e-300, -7.25]
+
+
+def check_nonfinite(mods, case, ctx):
+    """Concrete case list (non-finite and negative times / extrema are outside the real-arithmetic claim):
+    the header tables hold NaN / +-Inf / negative values at chosen (level, box, field) positions; the printed
+    text must be what the tables give - 'nan' as soon as one entry of the field is NaN, the true extremum otherwise."""
+    import math
+    mesh, fields = case['mesh'], case['fields']
+    lo, dx0 = families.GEOMS[mesh.ndims][case['geom']]
+    obl = Obl(ctx)
+    rnd = random.Random(len(fields) * 7 + mesh.ndims)
+    for variant in range(len(NONFINITE)):
+        t = [-0.5, float('inf'), float('nan'), -3.0, 1e300][variant]
+        ref = Ref('p', mesh.ndims, fields, mesh.ncell0, mesh.boxes, layout=case['layout'], lo=lo, dx0=dx0, time=t, payload='concrete', seed=variant)
+        # inject: the special value at the LAST level's last box for field 0 (min) and at level 0 box 0 for the last field (max)
+        special = NONFINITE[variant]
+        ref.mins[ref.nlev - 1][-1][0] = special
+        ref.maxs[0][0][ref.nf - 1] = special
+        if ref.nlev > 1:
+            ref.maxs[ref.nlev - 1][0][0] = NONFINITE[(variant + 1) % len(NONFINITE)]
+        fs = SymFS()
+        ref.write_symfs(fs, '/work/plt')
+        # minuterie
+        old = sys.argv
+        sys.argv = ['minuterie', 'plt']
+        try:
+            with patch.Patched(mods, fs), common.quiet() as buf:
+                mods['amr_kitchen.minuterie'].main()
+        except Exception as e:
+            obl.fail('minuterie raised %s on time %r' % (type(e).__name__, t))
+            return obl
+        finally:
+            sys.argv = old
+        got = buf.getvalue().split('=')[-1].strip()
+        obl.holds(got == str(float(t)), 'minuterie printed %r for the header time %r' % (got, t))
+        for finest in (False, True):
+            mod = mods['amr_kitchen.menu.menu']
+            saved = dict(mod.Menu.field_info)
+            try:
+                with patch.Patched(mods, fs), common.quiet() as buf:
+                    try:
+                        mod.Menu('plt', min_max=True, finest_lv=finest)
+                    except Exception as e:
+                        obl.fail('Menu(min_max, finest_lv=%r) raised %s: %s on non-finite tables' % (finest, type(e).__name__, str(e)[:80]))
+                        return obl
+            finally:
+                mod.Menu.field_info.clear()
+                mod.Menu.field_info.update(saved)
+            cells = dict((n, p) for n, p in parse_table(buf.getvalue()) if n)
+            lv = list(range(ref.nlev)) if not finest else [ref.nlev - 1]
+            for f in fields:
+                c = fields.index(f)
+                mn = [float(ref.mins[l][b][c]) for l in lv for b in range(len(ref.boxes[l]))]
+                mx = [float(ref.maxs[l][b][c]) for l in lv for b in range(len(ref.boxes[l]))]
+                emin = float('nan') if any(math.isnan(x) for x in mn) else min(mn)
+                emax = float('nan') if any(math.isnan(x) for x in mx) else max(mx)
+                want = ['{:.3}'.format(emin), '{:.3}'.format(emax)]
+                got = cells.get(f, [None, None])[:2]
+                if not obl.holds(got == want, 'Menu(min_max, finest_lv=%r) with %r in the tables: field %r shows %s, the tables give %s' % (finest, special, f, got, want)):
+                    return obl
+    return obl
+
+
 def run_case(case):
     res = CaseResult()
     mods = common.mods()
@@ -219,7 +283,8 @@ def run_case(case):
               ('menu/min_max', lambda ctx: check_menu(mods, ref, (True, False), ctx)),
               ('menu/finest', lambda ctx: check_menu(mods, ref, (False, True), ctx)),
               ('menu/min_max+finest', lambda ctx: check_menu(mods, ref, (True, True), ctx)),
-              ('marinate', lambda ctx: check_marinate(mods, ref, ctx))]
+              ('marinate', lambda ctx: check_marinate(mods, ref, ctx)),
+              ('nonfinite', lambda ctx: check_nonfinite(mods, case, ctx))]
     for name, fn in checks:
         results, exhaustive, stats = core.explore(fn, max_paths=8)
         res.add_explore(results, exhaustive, stats)
@@ -245,7 +310,7 @@ def run_case(case):
     for sig, v in viol.items():
         if not common.claim('C18', sig):
             continue
-        d = make_replay(ref, v)
+        d = make_replay(ref, v, case)
         status, out = common.run_replay(d)
         v2 = {'signature': sig, 'what': v['what'], 'replay': d}
         if status == 'reproduced':
@@ -257,11 +322,80 @@ def run_case(case):
     return res
 
 
-def make_replay(ref, v):
+def replay_nonfinite(d, case):
+    """Real files, real (unpatched) tools, the same concrete non-finite tables."""
+    import contextlib
+    import io
+    import math
+    import os
+    import shutil
+    from model import plotfile
+    from amr_kitchen import minuterie
+    from amr_kitchen.menu.menu import Menu
+    mesh = [m for m in families.curated_meshes() if m.name == case['mesh']][0]
+    fields = case['fields']
+    lo, dx0 = families.GEOMS[mesh.ndims][case['geom']]
+    for variant in range(len(NONFINITE)):
+        t = [-0.5, float('inf'), float('nan'), -3.0, 1e300][variant]
+        ref = Ref('p', mesh.ndims, fields, mesh.ncell0, mesh.boxes, lo=lo, dx0=dx0, time=t, payload='concrete', seed=variant)
+        special = NONFINITE[variant]
+        ref.mins[ref.nlev - 1][-1][0] = special
+        ref.maxs[0][0][ref.nf - 1] = special
+        if ref.nlev > 1:
+            ref.maxs[ref.nlev - 1][0][0] = NONFINITE[(variant + 1) % len(NONFINITE)]
+        fs = SymFS()
+        ref.write_symfs(fs, '/work/plt')
+        top = os.path.join(d, 'v%d' % variant)
+        shutil.rmtree(top, ignore_errors=True)
+        plotfile.write_real_tree(fs, '/work/plt', os.path.join(top, 'plt'), lambda p: 0.0)
+        os.chdir(top)
+        buf = io.StringIO()
+        old = sys.argv
+        sys.argv = ['minuterie', 'plt']
+        try:
+            with contextlib.redirect_stdout(buf):
+                minuterie.main()
+        except Exception as e:
+            return True, 'minuterie raised %s on time %r' % (type(e).__name__, t)
+        finally:
+            sys.argv = old
+        if buf.getvalue().split('=')[-1].strip() != str(float(t)):
+            return True, 'minuterie printed %r for the header time %r' % (buf.getvalue(), t)
+        for finest in (False, True):
+            buf = io.StringIO()
+            try:
+                with contextlib.redirect_stdout(buf), contextlib.redirect_stderr(io.StringIO()):
+                    Menu('plt', min_max=True, finest_lv=finest)
+            except Exception as e:
+                return True, 'Menu(min_max, finest_lv=%r) raised %s on non-finite tables' % (finest, type(e).__name__)
+            cells = dict((n, p) for n, p in parse_table(buf.getvalue()) if n)
+            lv = list(range(ref.nlev)) if not finest else [ref.nlev - 1]
+            for f in fields:
+                c = fields.index(f)
+                mn = [float(ref.mins[l][b][c]) for l in lv for b in range(len(ref.boxes[l]))]
+                mx = [float(ref.maxs[l][b][c]) for l in lv for b in range(len(ref.boxes[l]))]
+                emin = float('nan') if any(math.isnan(x) for x in mn) else min(mn)
+                emax = float('nan') if any(math.isnan(x) for x in mx) else max(mx)
+                want = ['{:.3}'.format(emin), '{:.3}'.format(emax)]
+                got = cells.get(f, [None, None])[:2]
+                if got != want:
+                    return True, 'Menu(min_max, finest_lv=%r) with %r in the tables: field %r shows %s, the tables give %s' % (finest, special, f, got, want)
+    return False, 'non-finite tables reported as they are'
+
+
+def make_replay(ref, v, case=None):
     import json
     import os
     from harness import replay_lib
     d = common.replay_dir('C18', v['signature'])
+    if v['tool'] == 'nonfinite':
+        cj = {'property': 'C18', 'handler': 'c18nf', 'signature': v['signature'], 'what': v['what'], 'mesh': case['mesh'].name, 'fields': case['fields'], 'geom': case['geom']}
+        with open(os.path.join(d, 'case.json'), 'w') as f:
+            json.dump(cj, f, indent=1)
+        with open(os.path.join(d, 'python'), 'w') as f:
+            f.write(os.path.join(common.VERIF, '.venv', 'bin', 'python'))
+        common.write_replay_stub(d)
+        return d
     val = common.Valuation(v.get('model'))
     val.defaults.setdefault('time', -0.4375)
     replay_lib.materialise_ref(ref, os.path.join(d, 'plt'), val)
